@@ -381,6 +381,14 @@ def run_obs(w, rec):
             v = o.integrate_log_conditional_y(w.obj(rec["p"]))(w.f(rec, "y"))
         else:
             v = o.integrate_log_conditional_y(w.obj(rec["p"]), y=w.f(rec, "y"))
+    elif name == "sample":
+        jax = lib()["jax"]
+        key = jnp.asarray(np.asarray(rec["key"], dtype=np.uint32))
+        n = int(rec["n"])
+        if rec.get("jit"):
+            v = jax.jit(lambda k: o.sample(k, n))(key)
+        else:
+            v = o.sample(key, n)
     elif name == "to_dict":
         d = o.to_dict()
         for n in sorted(d):
@@ -468,6 +476,7 @@ def exec_step(w, rec, i):
             if "imm" in w.invariants and not (rec["op"] in MUTATORS and sid == rec["a"]):
                 snaps[sid] = ref.snapshot(s.obj)
         ctx = ctx_of(w, rec, before)
+        prod_pre = _prod_pre(w, rec, i) if "prod" in w.invariants and rec["op"] in ("multiply", "product") else None
     try:
         touched = RUN[rec["op"]](w, rec)
     except (Violation, IllConditioned):
@@ -501,6 +510,10 @@ def exec_step(w, rec, i):
                 return 0
             raise
 
+    if "samp" in w.invariants and rec["op"] == "obs" and rec.get("name") == "sample":
+        w.stats["chk.I_samp"] += guarded(lambda: _sample_check(w, rec, i, where), [])
+    if prod_pre is not None:
+        w.stats["chk.I_prod"] += guarded(lambda: _prod_post(w, rec, prod_pre, touched[0], where), touched)
     for sid, sn in snaps.items():
         w.stats["chk.I_imm"] += guarded(lambda: ref.I_imm(w.slots[sid].obj, sn, where=where + f" operand {sid}"), [w.slots[sid]])
     for sid in ops:
@@ -517,6 +530,110 @@ def exec_step(w, rec, i):
                   tuple(sorted(before.items())), tuple(describe(s) for s in touched),
                   tuple((k[1], util.sha_bytes(w.outputs[k])) for k in outs)))
     return touched
+
+
+def _prod_pre(w, rec, i):
+    """C01 oracle, before the call: operand log-values at generic points."""
+    jnp = lib()["jnp"]
+    u = w.obj(rec["a"])
+    X = ref.points_for(u, ("prod", w.salt, i)) if ref.kind_of(u) in ("measure", "pdf") else ref.generic_points(int(u.D), ("prod", w.salt, i))
+    Xj = jnp.asarray(X)
+    pre = {"X": X, "lu": A(u.evaluate_ln(Xj))}
+    if rec["op"] == "multiply":
+        pre["lf"] = A(w.obj(rec["f"]).evaluate_ln(Xj))
+    return pre
+
+
+def _prod_post(w, rec, pre, res_slot, where):
+    """C01 oracle, after the call: result == pointwise product in the documented layout;
+    operands still evaluate to bit-identical values."""
+    jnp = lib()["jnp"]
+    Xj = jnp.asarray(pre["X"])
+    lu = pre["lu"]
+    got = A(res_slot.obj.evaluate_ln(Xj))
+    n = 1
+    if rec["op"] == "product":
+        want = lu.sum(axis=0, keepdims=True)
+        ref.cmp_log("I_prod.product", got, want, where=where)
+    else:
+        lf = pre["lf"]
+        R1, R2 = lu.shape[0], lf.shape[0]
+        if rec.get("how") == "hadamard":
+            R = max(R1, R2)
+            want = np.stack([lu[k if R1 > 1 else 0] + lf[k if R2 > 1 else 0] for k in range(R)])
+            ref.cmp_log("I_prod.hadamard", got, want, where=where)
+        else:
+            want = np.empty((R1 * R2, lu.shape[1]))
+            for a in range(R1):
+                for b in range(R2):
+                    want[a * R2 + b] = lu[a] + lf[b]
+            ref.cmp_log("I_prod.multiply", got, want, where=where)
+        if int(res_slot.obj.R) != want.shape[0]:
+            raise Violation("I_prod.R", f"result reports R={int(res_slot.obj.R)} but evaluates to {want.shape[0]} components", where=where)
+        ref.cmp_bits("I_prod.operand_f_values", A(w.obj(rec["f"]).evaluate_ln(Xj)), lf, where=where)
+        n += 2
+    ref.cmp_bits("I_prod.operand_u_values", A(w.obj(rec["a"]).evaluate_ln(Xj)), lu, where=where)
+    return n + 1
+
+
+def _sample_check(w, rec, i, where):
+    """C19 oracle: shape; affine image of the key's normal stream (structural); 6-sigma moments."""
+    L = lib()
+    jax, jnp = L["jax"], L["jnp"]
+    x = A(w.outputs[(i, "sample")])
+    o = w.obj(rec["a"])
+    mu, Sig = A(o.mu), A(o.Sigma)
+    R, D = mu.shape
+    n = int(rec["n"])
+    if x.shape != (n, R, D):
+        raise Violation("I_samp.shape", f"{x.shape} != {(n, R, D)}", where=where)
+    if not np.all(np.isfinite(x)):
+        raise Violation("I_samp.finite", "non-finite draws", where=where)
+    checks = 1
+    if n >= D + 2 and n <= 4096:
+        key = jnp.asarray(np.asarray(rec["key"], dtype=np.uint32))
+        z = A(jax.random.normal(key, (n, R, D)))
+        ok_struct = True
+        Ls = []
+        for r in range(R):
+            Y = x[:, r, :] - mu[r]
+            sol, *_ = np.linalg.lstsq(z[:, r, :], Y, rcond=None)
+            resid = Y - z[:, r, :] @ sol
+            scale = max(np.max(np.abs(Y)), 1e-12)
+            if np.max(np.abs(resid)) > 1e-8 * scale:
+                ok_struct = False
+                break
+            Ls.append(sol.T)
+        if ok_struct:
+            for r in range(R):
+                ref.cmp_lin("I_samp.LLt", Ls[r] @ Ls[r].T, Sig[r], where=where, component=r)
+            w.stats["samp_structural_ok"] += 1
+            checks += R
+        else:
+            # another (legal) use of the key stream: abstain, statistics judge
+            w.stats["samp_structural_abstain"] += 1
+    if n >= 5000:
+        m = x.mean(axis=0)
+        for r in range(R):
+            se = np.sqrt(np.diag(Sig[r]) / n)
+            if np.any(np.abs(m[r] - mu[r]) > 6 * se):
+                raise Violation("I_samp.mean", f"component {r}: |mean-mu| {np.abs(m[r]-mu[r]).max():.3e} > 6 se {6*se.min():.3e}", where=where, observed=m[r], expected=mu[r])
+            xc = x[:, r, :] - m[r]
+            S = xc.T @ xc / (n - 1)
+            d = np.diag(Sig[r])
+            se2 = np.sqrt((np.outer(d, d) + Sig[r] ** 2) / n)
+            if np.any(np.abs(S - Sig[r]) > 6 * se2):
+                raise Violation("I_samp.cov", f"component {r}: covariance off by {np.abs(S-Sig[r]).max():.3e}", where=where, observed=S, expected=Sig[r])
+        sd = x.std(axis=0)
+        xs = (x - m) / np.maximum(sd, 1e-300)
+        for r in range(R):
+            for q in range(r + 1, R):
+                C = xs[:, r, :].T @ xs[:, q, :] / n
+                if np.any(np.abs(C) > 6 / np.sqrt(n)):
+                    raise Violation("I_samp.cross", f"components {r},{q} correlated: {np.abs(C).max():.3e} > {6/np.sqrt(n):.3e}", where=where)
+        w.stats["samp_statistical"] += 1
+        checks += 2 * R
+    return checks
 
 
 class KnownFindingStop(Exception):
